@@ -130,7 +130,7 @@ func equalsV(fr *frame, t types.Type, x, y value) value {
 	case string:
 		ys := y.(string)
 		if x != ys && (isMarked(x) || isMarked(ys)) {
-			panic(engineAbort{"comparison of strings standing for symbolic content"})
+			return markedStringsEqual(x, ys)
 		}
 		return x == ys
 	case *value:
